@@ -111,7 +111,13 @@ func concOp(name string, g int) string {
 		x, e1 := m.Xml()
 		xi, e2 := m.XmlIndent("", "  ")
 		j, e3 := m.JsonIndent("", " ")
-		return fmt.Sprint(string(x), e1, string(xi), e2, string(j), e3)
+		// the Raw writer forms hand out bytes as well: they are held while further encodings take place
+		var w1, w2 bytes.Buffer
+		raw, e4 := m.JsonWriterRaw(&w1)
+		rawi, e5 := m.JsonIndentWriterRaw(&w2, "", " ")
+		m.JsonWriter(&w2)
+		m.Json()
+		return fmt.Sprint(string(x), e1, string(xi), e2, string(j), e3, string(raw), e4, string(rawi), e5, w1.String())
 	}
 	panic("conc: unknown operation " + name)
 }
